@@ -230,12 +230,16 @@ def check_wiring(col: Collector, repo: Repo):
     # executor: every JobScriptSpecification of this query is appended
     aat = repo.method("executor", "apply_ast_transformations", hint="common.executor")
     ok = False
-    for n in walk_no_nested(aat.node):
-        if isinstance(n, ast.For) and src(n.iter) == "cpp_functions":
-            for i in n.body:
-                if isinstance(i, ast.If) and "isinstance" in src(i.test) and "JobScriptSpecification" in src(i.test) and not i.orelse:
-                    ok = any(isinstance(c, ast.Call) and call_name(c) == "append" and src(c.func.value) == "self._job_option_blocks"
-                             and src(c.args[0]) == src(n.target) for c in ast.walk(i))
+    pma = parent_map(aat.node)
+    for c in walk_no_nested(aat.node):
+        if isinstance(c, ast.Call) and call_name(c) == "append" and src(c.func.value) == "self._job_option_blocks":
+            lps = enclosing(aat.node, c, (ast.For,), pma)
+            if len(lps) == 1 and src(lps[0].iter) == "cpp_functions" and src(c.args[0]) == src(lps[0].target):
+                gs = guards(lps[0], c, pma)
+                pos = [t for t, tr in gs if tr]
+                neg = [t for t, tr in gs if not tr]
+                ok = len(pos) == 1 and "isinstance" in src(pos[0]) and "JobScriptSpecification" in src(pos[0]) and \
+                    all("isinstance" in src(t) and "JobScriptSpecification" not in src(t) for t in neg)
     col.add("C15.R3", "executor.apply_ast_transformations", "collects-every-job-script", ok,
             "every JobScriptSpecification in this query's metadata must be appended to self._job_option_blocks", aat.loc)
     # reset clears
